@@ -16,7 +16,11 @@ whenever a result is published, and must end with the same results and the same 
 Direct oracle (real code only): whenever a client's reply has been processed the client is not blocked;
 measured as: dispatch (virtual) time of its reply vs. the (virtual) time at which it returns.
 Every stall is classified by its schedule signature; the two shapes of F3 are listed in known_findings.json,
-anything else is a violation.
+anything else is a violation -- in particular a stall during which the dispatching thread sent a request of its
+own between the lock hand-off and the publication (`C14:dispatcher-blocks-in-nested-request-before-publication`):
+the model's dispatch makes no request (theorem dispatcher_sends_no_request), and the correspondence checks the
+real code for that with by-reference results and a DEBUG logger configured, also on the "dispatcher priority"
+schedule family (a thread that has received a frame is not preempted until it has dispatched it).
 """
 import time
 
@@ -80,13 +84,25 @@ WITNESSES = {
     # NOTIFIES and dispatches before the caller runs again
     "poller-cond": (dict(clients=[[None]], pollers=[[0]]),
                     [("run", 2, "s3"), ("block", 1), ("peer", 0), ("block", 2)], None),
+    # by-reference result + DEBUG logger on the connection: same behaviour as `main` (dispatch does no extra work)
+    "byref-log": (dict(clients=[[10]], bg=True, byref=True, logger=True),
+                  [("run", 1, "c3"), ("peer", 0), ("run", 2, "n2"), ("block", 1), ("run", 2, "d5")], ss.SIG_MAIN),
+    # negative, dispatcher-priority family: thread 2 holds the receive lock in poll(), thread 1 (no expiry) is parked on
+    # the condition, the peer answers thread 1; thread 2 receives, releases, notifies and publishes without being
+    # preempted; thread 1 wakes and finds its result.  (Were the dispatcher to send a request of its own before the
+    # publication, the rest of the script lets the woken waiter run during that round trip.)
+    "priority": (dict(clients=[[None], [9]], byref=True, logger=True, dispatcher_priority=True),
+                 [("block", 2), ("block", 1), ("peer", 1), ("run", 2, "c2"), ("block", 1), ("peer", 2), ("block", 1), ("block", 2)],
+                 None),
     # negative neighbours: the caller receives its own reply; the caller tests readiness after the dispatch
     "self": (dict(clients=[[10]], bg=True), [("run", 1, "c3"), ("peer", 0), ("block", 1)], None),
     "after": (dict(clients=[[10]], bg=True), [("run", 1, "c3"), ("peer", 0), ("run", 2, "d5"), ("block", 1)], None),
 }
 
 NEIGHBOURHOODS = [("1c+bg", dict(clients=[[4]], bg=True), 2), ("2c", dict(clients=[[None], [4]], bg=False), 1),
-                  ("1c+poller", dict(clients=[[None]], pollers=[[0]]), 2)]
+                  ("1c+poller", dict(clients=[[None]], pollers=[[0]]), 2),
+                  ("1c+bg-byref-log", dict(clients=[[4]], bg=True, byref=True, logger=True), 1),
+                  ("2c-byref-log-priority", dict(clients=[[None], [4]], byref=True, logger=True, dispatcher_priority=True), 1)]
 RANDOM_CONFIGS = {
     "1c+bg": dict(clients=[[6]], bg=True),
     "1c-none+bg": dict(clients=[[None]], bg=True),
@@ -95,6 +111,9 @@ RANDOM_CONFIGS = {
     "2c-2calls+bg-tick": dict(clients=[[3, 4], [5]], bg=True, early_tick=True),
     "2c+poller": dict(clients=[[None], [5]], pollers=[["ready", 0]]),
     "1c+poller+bg": dict(clients=[[6]], pollers=[[1, "ready"]], bg=True),
+    "2c+bg-byref-log": dict(clients=[[None], [6]], bg=True, byref=True, logger=True),
+    "2c+poller-byref-log-priority": dict(clients=[[None], [6]], pollers=[[0, 1]], byref=True, logger=True,
+                                         dispatcher_priority=True),
 }
 
 
@@ -229,7 +248,7 @@ def known_probes(ctx):
     """replay the Lean counterexamples' schedules on the real code; one probe per listed signature"""
     env = ss.locate_statements()
     out = []
-    for sig, names in ((ss.SIG_MAIN, ("main", "main-none", "clients", "poller")), (ss.SIG_LATE, ("late", "cond"))):
+    for sig, names in ((ss.SIG_MAIN, ("main", "main-none", "clients", "poller", "byref-log")), (ss.SIG_LATE, ("late", "cond"))):
         texts, rep = [], False
         for name in names:
             try:
@@ -262,7 +281,8 @@ def oracle_search(ctx, corr, broken):
     deadline = time.time() + ctx.budget(40, 600)
 
     def unlisted(run):
-        return [s for s in ss.stalls_of(run) if s["signature"] not in known]
+        sts = [s for s in ss.stalls_of(run) if s["signature"] not in known]
+        return sorted(sts, key=lambda s: s["signature"] != ss.SIG_NESTED)     # the most specific shape first
 
     def package(case, run, park_all):
         st = unlisted(run)[0]
